@@ -341,6 +341,19 @@ def rule_fresh(P):
     return r
 
 
+def rule_schedule_ret(ctx, config):
+    """event_deferred_cb_schedule_ tells its caller whether the callback was NEWLY scheduled, and the callers (bufferevents, evbuffers) take a reference on their object exactly then; the
+    deferred run drops one.  A callback that was already waiting (ACTIVE or ACTIVE_LATER) and is reported as new gets a second reference that nobody drops: the object is never
+    finalized.  The activation functions against C02's reference model (engine/props/C02.py: rule_machine, restricted to them), return value included."""
+    from . import C02
+    P2 = ctx.prog(C02.UNITS, config)
+    r = C02.rule_machine(P2, config, only=("event_callback_activate_nolock_", "event_callback_activate_later_nolock_"))
+    r.id = "C10-schedule-ret"
+    r.floor = 40
+    r.desc = "event_callback_activate(_later)_nolock_ report 'newly scheduled' exactly when the callback was in no queue (the callers take a reference exactly then)"
+    return r
+
+
 def run(ctx, config):
     P = ctx.prog(UNITS, config)
-    return [rule_fields(P), rule_closures(P), rule_once(P), rule_finalize(P), rule_fresh(P)]
+    return [rule_fields(P), rule_closures(P), rule_once(P), rule_finalize(P), rule_fresh(P), rule_schedule_ret(ctx, config)]
